@@ -570,8 +570,20 @@ class GraphicsTerminal:
                     "Invalid response to cursor position request: %r" % buffer
                 )
             y, x = parts
-            self.tracked_cursor_position = (int(x) - 1, int(y) - 1)
-        return self.tracked_cursor_position
+            position = (int(x) - 1, int(y) - 1)
+            # A column beyond the last one means that the next character will wrap
+            # (tmux and kitty report this state this way). Relative movements from
+            # this state are not tracked, so don't remember such a position.
+            try:
+                columns = self.get_size()[0]
+            except (ValueError, OSError):
+                # The size is unknown (e.g. the streams are not ttys).
+                columns = None
+            if columns is None or position[0] < columns:
+                self.tracked_cursor_position = position
+            else:
+                self.tracked_cursor_position = None
+        return position
 
     def get_cursor_position_tracked(self, timeout: float = 2.0) -> Tuple[int, int]:
         if self.tracked_cursor_position is None:
